@@ -31,10 +31,14 @@ MIN_INSTANCES = {"FORMULA": 4, "ZERODIV": 2, "VAR": 4, "BOUND": 2}
 
 
 def _owner_of(prog, name):
-    owners = [c for c in prog.all_classes() if name in c.methods and c.module.name.startswith("ixai.explainer")]
-    if len(owners) != 1:
-        raise AnalysisError(f"anchor method {name} defined in {len(owners)} explainer classes")
-    return owners[0]
+    """The public explainer class through which `name` is analysed: the common ancestor of the public classes
+    that offer it (the method itself may live in a private mixin or base class further up)."""
+    having = [c for c in prog.all_classes() if c.module.name.startswith("ixai.explainer") and not c.name.startswith("_")
+              and prog.find_method(c, name)[1] is not None]
+    roots = [c for c in having if all(c in prog.mro(o) for o in having)]
+    if len(roots) != 1:
+        raise AnalysisError(f"anchor method {name} is offered by {len(having)} explainer classes without a common public base")
+    return roots[0]
 
 
 def check(run):
@@ -126,7 +130,7 @@ def _normalise(run, prog):
     if missing and not run.findings:
         run.fail("FORMULA", "norm.cases", f"{s.path}:{s.fn.lineno}", fq, f"missing cases {sorted(map(str, missing))}",
                  f"normalisation must handle sum/delta x zero/non-zero and reject other modes; missing {sorted(map(str, missing))}")
-    default = fn.args.defaults[-1].value if fn.args.defaults else None
+    default = prog.default_value(fn, fn.args.defaults[-1]) if fn.args.defaults else None
     run.check(default == "sum", "FORMULA", "norm.default-mode", f"{s.path}:{s.fn.lineno}", fq, f"default mode {default!r}",
               f"the documented default mode is 'sum', found {default!r}", "default mode 'sum'")
 
